@@ -12,8 +12,8 @@ import (
 
 type libHandler func(fr *Frame, st *State, c *ast.CallExpr, fn *types.Func) []Val
 
-var libHandlers map[string]libHandler
-var libMods map[string]func(fr *Frame, c *ast.CallExpr, ms *modSet, markLhs func(ast.Expr))
+var libHandlers = map[string]libHandler{}
+var libMods = map[string]func(fr *Frame, c *ast.CallExpr, ms *modSet, markLhs func(ast.Expr)){}
 
 const ethc = "github.com/ethereum/go-ethereum/common"
 const ethcrypto = "github.com/ethereum/go-ethereum/crypto"
@@ -130,8 +130,6 @@ func (x *Exec) appendBE(contents string, k int, val string) string {
 }
 
 func init() {
-	libMods = map[string]func(fr *Frame, c *ast.CallExpr, ms *modSet, markLhs func(ast.Expr)){}
-	libHandlers = map[string]libHandler{}
 	H := libHandlers
 
 	readerMods := func(fr *Frame, c *ast.CallExpr, ms *modSet, markLhs func(ast.Expr)) {
